@@ -26,20 +26,21 @@ func fail(format string, args ...interface{}) {
 // ---------------------------------------------------------------------------
 
 type translator struct {
-	prog       *ssa.Program
-	pkgs       map[string]*ssa.Package
-	byName     map[string]*ssa.Function // target name -> function
-	byFunc     map[*ssa.Function]string // function -> target name
-	resolveErr map[string]string
-	panicMemo  map[*ssa.Function]int // 1 = being computed, 2 = cannot panic, 3 = can panic
-	fuelMemo   map[*ssa.Function]int // 2 = no loop (transitively), 3 = contains a loop or calls a target that does
-	legacy     map[string]bool       // targets of the original ssa2lean (namespace Low.Gen.Ssa, loop-free only)
-	gen2       map[string]bool       // targets of ssa2lean2 (namespace Low.Gen.Ssa2)
-	freshMemo  map[*ssa.Function]int // returnsFresh: 1 = being computed, 2 = yes, 3 = no
-	globalInts map[*ssa.Function][]*ssa.Global
-	tablesOK   map[*ssa.Global]string
-	globalsOK  map[*ssa.Global]string
-	allFuncs   []*ssa.Function
+	prog        *ssa.Program
+	pkgs        map[string]*ssa.Package
+	byName      map[string]*ssa.Function // target name -> function
+	byFunc      map[*ssa.Function]string // function -> target name
+	resolveErr  map[string]string
+	panicMemo   map[*ssa.Function]int // 1 = being computed, 2 = cannot panic, 3 = can panic
+	fuelMemo    map[*ssa.Function]int // 2 = no loop (transitively), 3 = contains a loop or calls a target that does
+	legacy      map[string]bool       // targets of the original ssa2lean (namespace Low.Gen.Ssa, loop-free only)
+	gen2        map[string]bool       // targets of ssa2lean2 (namespace Low.Gen.Ssa2)
+	freshMemo   map[*ssa.Function]int // returnsFresh: 1 = being computed, 2 = yes, 3 = no
+	globalInts  map[*ssa.Function][]*ssa.Global
+	writtenMemo map[*ssa.Function]map[int]bool
+	tablesOK    map[*ssa.Global]string
+	globalsOK   map[*ssa.Global]string
+	allFuncs    []*ssa.Function
 }
 
 func newTranslator(prog *ssa.Program, pkgs map[string]*ssa.Package, targets []string, legacy []string, gen2 []string) *translator {
@@ -49,7 +50,7 @@ func newTranslator(prog *ssa.Program, pkgs map[string]*ssa.Package, targets []st
 		resolveErr: map[string]string{}, panicMemo: map[*ssa.Function]int{},
 		fuelMemo: map[*ssa.Function]int{}, legacy: map[string]bool{}, tablesOK: map[*ssa.Global]string{},
 		globalsOK: map[*ssa.Global]string{}, gen2: map[string]bool{}, freshMemo: map[*ssa.Function]int{},
-		globalInts: map[*ssa.Function][]*ssa.Global{},
+		globalInts: map[*ssa.Function][]*ssa.Global{}, writtenMemo: map[*ssa.Function]map[int]bool{},
 	}
 	for _, t := range legacy {
 		tr.legacy[t] = true
@@ -529,14 +530,16 @@ type fnCtx struct {
 	gosem3  bool            // GoSem3 vocabulary used
 
 	// memory the function allocates itself (memory.go)
-	curp     map[int]string                   // the state (`cur`) of the block being emitted
-	owned    map[ssa.Value]int                // owned value -> class
-	clsRoot  []ssa.Value                      // class -> its first member in program order
-	liveCls  map[*ssa.BasicBlock]map[int]bool // classes live on entry to a block (and not redefined by a phi there)
-	joinView map[*ssa.BasicBlock]map[int]string
-	addrOf   map[*ssa.IndexAddr]ownedAddr
-	topo    map[*ssa.BasicBlock]int
-	resType string
+	curp       map[int]string                   // the state (`cur`) of the block being emitted
+	owned      map[ssa.Value]int                // owned value -> class
+	clsRoot    []ssa.Value                      // class -> its first member in program order
+	liveCls    map[*ssa.BasicBlock]map[int]bool // classes live on entry to a block (and not redefined by a phi there)
+	joinView   map[*ssa.BasicBlock]map[int]string
+	addrOf     map[*ssa.IndexAddr]ownedAddr
+	clsFields  map[int]map[int]bool   // class -> receiver fields whose memory the class may share
+	globalName map[*ssa.Global]string // package-level integer variables read: extra parameters (generation 3)
+	topo       map[*ssa.BasicBlock]int
+	resType    string
 
 	// struct receiver (methods with receiver *T, T a struct)
 	recv       *ssa.Parameter
@@ -676,6 +679,15 @@ func (c *fnCtx) run() string {
 		c.names[p] = n
 		c.paramNames = append(c.paramNames, n)
 		c.paramDecls = append(c.paramDecls, fmt.Sprintf("(%s : %s)", n, leanType(p.Type())))
+	}
+	c.globalName = map[*ssa.Global]string{}
+	if c.gen >= 3 {
+		for k, g := range c.tr.globalIntsOf(f) {
+			n := c.claim(g.Name(), 2000+k)
+			c.globalName[g] = n
+			c.paramNames = append(c.paramNames, n)
+			c.paramDecls = append(c.paramDecls, fmt.Sprintf("(%s : %s)", n, leanType(g.Type().Underlying().(*types.Pointer).Elem())))
+		}
 	}
 	if hasExt {
 		if c.extField < 0 {
@@ -998,6 +1010,10 @@ func (c *fnCtx) setupReceiver(p *ssa.Parameter) {
 		fail("receiver of type %s (only pointer-to-struct receivers)", p.Type())
 	}
 	c.recv, c.recvStruct = p, st
+	written := map[int]bool{}
+	if c.gen >= 3 {
+		written = c.tr.fieldsWritten(c.f)
+	}
 	storedSet := map[int]bool{}
 	accessed := map[int]bool{}
 	for _, r := range *p.Referrers() {
@@ -1046,13 +1062,25 @@ func (c *fnCtx) setupReceiver(p *ssa.Parameter) {
 	for k := 0; k < st.NumFields(); k++ {
 		ft := st.Field(k).Type()
 		supported := isIntType(ft) || isBool(ft)
-		if _, isSlice := ft.Underlying().(*types.Slice); isSlice && c.gen >= 3 && !storedSet[k] {
-			// a slice held by the receiver that the method only reads (through it: checked like a parameter)
+		if _, isSlice := ft.Underlying().(*types.Slice); isSlice && c.gen >= 3 {
+			// a slice held by the receiver: its contents are passed in (and returned when the method writes them)
 			func() {
 				defer func() { recover() }()
 				leanType(ft)
 				supported = true
 			}()
+			if written[k] {
+				if e := ft.Underlying().(*types.Slice).Elem(); !isIntType(e) {
+					fail("receiver field %s of type %s is written", st.Field(k).Name(), ft)
+				}
+				// ASSUMED: the receiver is the only holder of this memory.  A parameter of the same slice type could
+				// be an alias of it: refused.
+				for _, q := range c.f.Params[1:] {
+					if types.Identical(q.Type().Underlying(), ft.Underlying()) {
+						fail("parameter %s could share memory with the written receiver field %s", q.Name(), st.Field(k).Name())
+					}
+				}
+			}
 		}
 		if !supported {
 			if accessed[k] {
@@ -1068,7 +1096,7 @@ func (c *fnCtx) setupReceiver(p *ssa.Parameter) {
 		c.fieldParam[k] = n
 		c.paramNames = append(c.paramNames, n)
 		c.paramDecls = append(c.paramDecls, fmt.Sprintf("(%s : %s)", n, leanType(ft)))
-		if storedSet[k] {
+		if storedSet[k] || written[k] {
 			c.stored = append(c.stored, k)
 		}
 	}
@@ -1252,6 +1280,9 @@ func (c *fnCtx) emitBlock(b *ssa.BasicBlock, ind int, curIn map[int]string) {
 			view, ok := cur[viewKey(cls)]
 			if !ok {
 				fail("the memory of %s is live at block %d but not allocated on every path to it", c.clsRoot[cls].Name(), j.Index)
+			}
+			if _, tainted := cur[taintKey(cls)]; tainted {
+				fail("a view of the memory of a receiver field (%s) is live across the boundary of block %d", view, j.Index)
 			}
 			t := c.clsType(cls)
 			name := fmt.Sprintf("%s_b%d", c.clsRoot[cls].Name(), j.Index)
@@ -1442,6 +1473,11 @@ func (c *fnCtx) emitGoto(from *ssa.BasicBlock, succ int, ind int, cur map[int]st
 		phi, ok := in.(*ssa.Phi)
 		if !ok {
 			break
+		}
+		if cls, isOwned := c.owned[phi.Edges[edge]]; isOwned {
+			if _, tainted := cur[taintKey(cls)]; tainted {
+				fail("a view of the memory of a receiver field (%s) flows into the phi %s", phi.Edges[edge].Name(), phi.Name())
+			}
 		}
 		args = append(args, c.operand(phi.Edges[edge]))
 	}
@@ -1767,6 +1803,10 @@ func (c *fnCtx) emitInstr(in ssa.Instruction, ind int, cur map[int]string) {
 				if c.legacy {
 					fail("read of global %s of type %s", x.Name(), v.Type())
 				}
+				if n, ok := c.globalName[x]; ok {
+					c.let(ind, v, n) // the value of the package-level variable is an argument
+					return
+				}
 				if x.Pkg != nil && x.Pkg.Pkg.Path() == "github.com/openacid/must" && x.Name() == "Be" && onlyFeedsNoop(v) {
 					c.silent[v] = true // receiver of the no-op stub
 					return
@@ -2042,7 +2082,9 @@ func (c *fnCtx) emitCall(v *ssa.Call, ind int, cur map[int]string) {
 				for _, in := range b.Instrs {
 					switch x := in.(type) {
 					case *ssa.Store:
-						fail("call of method %s, which writes memory (%s)", callee.Name(), x)
+						if c.gen < 3 {
+							fail("call of method %s, which writes memory (%s)", callee.Name(), x)
+						}
 					case *ssa.Call:
 						if x.Call.IsInvoke() {
 							fail("call of method %s, which makes an external call", callee.Name())
@@ -2065,7 +2107,18 @@ func (c *fnCtx) emitCall(v *ssa.Call, ind int, cur map[int]string) {
 			// the result is treated as a value of its own: it must not share memory with an argument
 			fail("call of %s, which returns a slice it did not allocate", callee.Name())
 		}
+		if c.gen >= 3 {
+			for _, g := range c.tr.globalIntsOf(callee) {
+				args = append(args, c.globalName[g])
+			}
+		}
 		expr := c.leanRefOf(tname) + " " + strings.Join(args, " ")
+		if c.gen >= 3 && callee.Signature.Recv() != nil {
+			if w := c.tr.fieldsWritten(callee); len(w) > 0 {
+				c.emitStoringCall(v, callee, expr, ind, cur)
+				return
+			}
+		}
 		if c.tr.canPanic(callee) || c.tr.needsFuel(callee) {
 			c.bind(ind, v, leanType(v.Type()), expr)
 		} else {
